@@ -268,12 +268,18 @@ func collect(cycles int) {
 }
 
 // checkReleased verifies that canaries only reachable from removed rows get collected.
-func (g *gcWorld) checkReleased(min int) bool {
+// In-history checks work on aggregates with 2 % slack and carry what is still pending over to the next check; the
+// check at the end of a case (final) is exact: after up to 24 forced cycles nothing released may still be reachable.
+func (g *gcWorld) checkReleased(min int, final bool) bool {
 	if len(g.released) < min {
 		return true
 	}
 	pending := 0
-	for round := 0; round < 6; round++ {
+	rounds := 6
+	if final {
+		rounds = 12
+	}
+	for round := 0; round < rounds; round++ {
 		collect(2)
 		pending = 0
 		for _, id := range g.released {
@@ -288,11 +294,18 @@ func (g *gcWorld) checkReleased(min int) bool {
 	total := len(g.released)
 	g.cov.N["released_canaries"] += total
 	g.cov.N["released_finalized"] += total - pending
-	if pending*50 > total { // more than 2 % still reachable
-		g.fail("gc.retained", "%d of %d canaries that were only reachable from removed components/entities are still not collected after 12 forced GC cycles", pending, total)
+	if pending*50 > total || (final && pending > 0) { // more than 2 % still reachable; at the end: any
+		g.fail("gc.retained", "%d of %d canaries that were only reachable from removed components/entities are still not collected after %d forced GC cycles", pending, total, 2*rounds)
 		return false
 	}
-	g.released = g.released[:0]
+	keep := g.released[:0]
+	for _, id := range g.released {
+		if !finalized(id) {
+			keep = append(keep, id)
+		}
+	}
+	g.released = keep
+	g.cov.N["released_carried_over"] += len(keep)
 	return true
 }
 
@@ -488,7 +501,40 @@ func (g *gcWorld) opMove() {
 		return
 	}
 	e := Pick(r, es)
-	switch r.Intn(6) {
+	switch r.Intn(7) {
+	case 6: // batch removal / exchange of a pointer component itself (whole tables move, the removed column stays behind)
+		p := Pick(r, g.pids)
+		v := Pick(r, []string{"V1", "V2", "V3"})
+		switch r.Intn(3) {
+		case 0:
+			w.Batch().Remove(ecs.All(g.ids[p]), g.ids[p])
+			for o := range g.model {
+				if _, ok := g.model[o][p]; ok {
+					g.detach(o, p)
+				}
+			}
+		case 1:
+			f := ecs.All(g.ids[p]).Without(g.ids[v])
+			w.Batch().Exchange(&f, []ecs.ID{g.ids[v]}, []ecs.ID{g.ids[p]})
+			for o := range g.model {
+				if _, ok := g.model[o][p]; ok && !g.has(o, v) {
+					g.detach(o, p)
+					g.setPlain(o, v, true)
+				}
+			}
+		default:
+			// through a relation exchange: children of one target lose the pointer component and get another target
+			t := Pick(r, es)
+			f := ecs.All(g.ids[p], g.rel)
+			w.Relations().ExchangeBatch(&f, nil, []ecs.ID{g.ids[p]}, g.rel, t)
+			for o := range g.model {
+				if _, ok := g.model[o][p]; ok && g.plain[o]["Rel"] {
+					g.detach(o, p)
+					g.targets[o] = t
+				}
+			}
+		}
+		g.cov.N["batch_pointer_component_removed"]++
 	case 0, 1:
 		name := Pick(r, []string{"V1", "V2", "V3"})
 		if g.has(e, name) {
@@ -657,7 +703,7 @@ func caseC14(c *Ctx) {
 				g.checkAll(g.step%50 == 49)
 			}
 			if g.step%100 == 99 && len(g.viol) == 0 {
-				g.checkReleased(200)
+				g.checkReleased(200, false)
 			}
 		case "r2":
 			// typed paths only: creation, growth, writes through pointers, queries
@@ -694,7 +740,7 @@ func caseC14(c *Ctx) {
 		for e := range g.model {
 			g.dropEntity(e)
 		}
-		g.checkReleased(1)
+		g.checkReleased(1, true)
 	}
 	cycles := int(numGC() - gc0)
 	g.cov.N["gc_cycles"] += cycles
